@@ -77,6 +77,19 @@ def runSched (useSem : Bool) : QState → List Tid → QState
   | s, [] => s
   | s, t :: ts => runSched useSem (match step useSem s t with | some s' => s' | none => s) ts
 
+/-- the hand-made break `sem.wait(); sem.post(); queue.push(val);` — the semaphore
+    is posted BEFORE the container operation instead of after it (used only by a
+    witness theorem; round 3) -/
+def stepPF (s : QState) (t : Tid) : Option QState :=
+  match s.pc t with
+  | .cs op => some { s with sem := s.sem + 1, pc := upd s.pc t (.mid op s.queue) }
+  | .post => some { s with pc := upd s.pc t .idle }
+  | _ => step true s t
+
+def runSchedPF : QState → List Tid → QState
+  | s, [] => s
+  | s, t :: ts => runSchedPF (match stepPF s t with | some s' => s' | none => s) ts
+
 /-- reachable by safe_queue as shipped (with its semaphore) -/
 inductive Reach (prog : Tid → List QOp) (q0 : List (Tid × Int)) : QState → Prop
   | init : Reach prog q0 (init prog q0)
